@@ -10,7 +10,11 @@ from torch.utils._python_dispatch import _disable_current_modes
 from .. import sym as S
 from ..common import Check, Tally, ob, tier, replay_main, TIER
 from ..engine import fresh_reals, elems, Ctx
-from ..harness import sym_paths, decide_nra as decide, zor, zand, model_reals
+from ..harness import sym_paths, decide_nra_sliced, decide_any, zor, zand, model_reals
+
+
+def decide(ctx, negated, extra=(), budget_s=40):
+    return decide_nra_sliced(ctx, negated, (), budget_s, extra)
 from ..sym import NotEncodable
 
 PID = "C08"
@@ -127,7 +131,7 @@ def run_power(item, tl, mutate=None):
                 bad.append(z3.And(S.zbool(S.ne(xs[a], 0)), S.zbool(S.eq(ys[a], 0))))
                 for b in range(a + 1, len(xs)):
                     bad.append(S.zbool(S.ne(S.mul(xs[a], ys[b]), S.mul(xs[b], ys[a]))))
-            st, model = decide(ctx, z3.And(nonzero, S.zbool(S.ge(Px, 1e-9)), zor(bad)))
+            st, model = decide_any(ctx, bad, extra=[nonzero, S.zbool(S.ge(Px, 1e-9))])
             note("positive real factor (signs and phases preserved)", st, model, f"item {gi}: output is not a positive multiple of the input")
             if R["y2"] is not None:
                 y2 = elems(R["y2"])
@@ -136,7 +140,7 @@ def run_power(item, tl, mutate=None):
                     for p1, p2 in zip(parts(y[j]), parts(y2[j])):
                         diff = S.sub(p1, p2)
                         d.append(z3.Or(S.zbool(S.gt(diff, 1e-3 * (Tg ** 0.5))), S.zbool(S.lt(diff, -1e-3 * (Tg ** 0.5)))))
-                st, model = decide(ctx, z3.And(S.zbool(S.ge(Px, 1e-4)), zor(d)))
+                st, model = decide_any(ctx, d, extra=[S.zbool(S.ge(Px, 1e-4))])
                 note("idempotent", st, model, f"item {gi}: c(c(x)) differs from c(x) by more than 1e-3*sqrt(T)")
     for clause, (st, what, model, _) in agg.items():
         if st == "violated":
@@ -211,7 +215,7 @@ def run_peak(item, tl):
         bad.append(z3.And(S.zbool(S.le(a, A)), S.zbool(S.ge(a, -A)), S.zbool(S.ne(a, b))))
         bad.append(z3.And(S.zbool(S.gt(a, A)), S.zbool(S.ne(b, A))))
         bad.append(z3.And(S.zbool(S.lt(a, -A)), S.zbool(S.ne(b, -A))))
-    st, model = decide(ctx, zor(bad))
+    st, model = decide_any(ctx, bad)
     if st == "violated":
         vals = model_reals(model, "x", n)
         with _disable_current_modes():
@@ -306,7 +310,7 @@ def run_factory(item, tl):
                 groups, _ = items_of("antenna", shape)
                 for g in groups:
                     bad.append(S.zbool(S.gt(power([y[j] for j in g], True), c.uniform_power * (1 + 1e-6))))
-        st, model = decide(ctx, zor(bad))
+        st, model = decide_any(ctx, bad)
         if st == "violated":
             vals = model_reals(model, "x", n)
             with _disable_current_modes():
